@@ -5,9 +5,11 @@
 //! region: none | <pos>~end | <pos>~<pos>      pos: s=<f64 bits> (seconds) | n=<samples>
 //! every op prints `<position> <playing> <loop start>,<loop end>|none`
 //!
-//! In-domain cases have a valid loop region (start < end ≤ num frames) or none and, when reversed,
-//! start < num frames.  A few out-of-domain cases (`ood_*` in the stats) are generated on purpose:
-//! the model says they fault (`hang` / `overflow`), the watchdog shows that the real code does.
+//! Most cases have a valid loop region (start < end ≤ num frames) or none.  Degenerate loop regions
+//! (empty, inverted: `Transport::new` / `set_loop_region` drop them) and reversed transports whose start
+//! position is at or past the end (every reversed empty sound: the start frame saturates at 0) are
+//! generated regularly — they used to hang / underflow and are ordinary inputs since the repairs; a
+//! fault on any of them is reported by `fault_oracles` and is not a known finding any more.
 use crate::runner::{run_cases, Out};
 use crate::util::*;
 use kira::sound::{EndPosition, PlaybackPosition, Region};
@@ -84,8 +86,23 @@ fn exec(case: &[String], out: &mut Out) {
 			"new" => {
 				let sr = pu(tok[4]) as u32;
 				let n = pu(tok[5]) as usize;
-				let tr = HTransport::new(pu(tok[1]) as usize, parse_region(tok[2]), tok[3] == "1", sr, n);
+				let start = pu(tok[1]) as usize;
+				let reverse = tok[3] == "1";
+				let tr = HTransport::new(start, parse_region(tok[2]), reverse, sr, n);
 				out.put(show(&tr));
+				// --- oracles (C04_transport_new_any): any start position, any length, either direction ---
+				let want = if reverse { n.saturating_sub(1).saturating_sub(start) } else { start };
+				if tr.position() != want || !tr.playing() {
+					out.oracle_fail("transport_new_wrong", l);
+				}
+				if reverse && n > 0 && tr.position() >= n {
+					out.oracle_fail("transport_new_reverse_outside", l);
+				}
+				if let Some((a, b)) = tr.loop_region() {
+					if a >= b {
+						out.oracle_fail("transport_new_degenerate_loop_kept", l);
+					}
+				}
 				t = Some(tr);
 			}
 			"inc" | "dec" | "seek" => {
@@ -285,7 +302,7 @@ pub fn run(ops: &[String]) -> Vec<String> {
 
 fn gen_case(rng: &mut Rng, out: &mut Vec<String>, stats: &mut Stats, n: u64, hang_budget: &mut u32) {
 	let sr = rng.pick(&[1u64, 2, 4, 8, 1000, 44100, 48000]);
-	let reverse = rng.chance(1, 3) && (n > 0 || rng.chance(1, 20));
+	let reverse = rng.chance(1, 3);
 	// loop region
 	let mut region = "none".to_string();
 	let mut kind = "none";
@@ -312,16 +329,14 @@ fn gen_case(rng: &mut Rng, out: &mut Vec<String>, stats: &mut Stats, n: u64, han
 		kind = "ood_loop_inverted";
 	}
 	stats.hit(&format!("loop_{}", kind));
-	let start = if reverse && n > 0 {
-		if rng.below(60) == 0 {
-			stats.hit("ood_reverse_start_ge_len");
-			n + rng.below(3)
-		} else {
-			rng.below(n)
+	let start = if reverse {
+		// at or past the end (always so for an empty sound): the start frame saturates at 0
+		match rng.below(8) {
+			0 => n,
+			1 => n + 1 + rng.below(3),
+			2 => n.saturating_sub(1),
+			_ => rng.below(n + 1),
 		}
-	} else if reverse {
-		stats.hit("ood_reverse_start_ge_len");
-		0
 	} else {
 		match rng.below(6) {
 			0 => n,
@@ -330,6 +345,9 @@ fn gen_case(rng: &mut Rng, out: &mut Vec<String>, stats: &mut Stats, n: u64, han
 			_ => rng.below(n + 1),
 		}
 	};
+	if reverse && start >= n {
+		stats.hit("reverse_start_ge_len");
+	}
 	out.push(format!("new {} {} {} {} {}", start, region, reverse as u8, sr, n));
 	stats.hit("new");
 	let steps = rng.range(3, 30);
@@ -391,7 +409,8 @@ pub fn gen(rng: &mut Rng, n: usize, thorough: bool, stats: &mut Stats) -> Vec<St
 			}
 			for region in &regions {
 				for reverse in 0..2u8 {
-					let starts = if reverse == 1 { len } else { len + 2 };
+					// reversed too: start positions at and past the end (saturate at frame 0)
+					let starts = len + 2;
 					for start in 0..starts {
 						let k = alphabet.len();
 						for code in 0..k * k * k {
